@@ -1,6 +1,7 @@
 import DaskModel.DriverLib
 import DaskModel.Model.Cumulative
 import DaskModel.Model.Overlap
+import DaskModel.Model.OverlapTime
 import DaskModel.Model.Frame
 import DaskModel.Model.TreeReduce
 import DaskModel.Model.RelExpr
@@ -181,6 +182,59 @@ def hCombined : Handler := handler fun args =>
 def hRollBlockwise : Handler := handler fun args =>
   match args with
   | [w, n] => do pure (SExp.ofBool (Overlap.rollingIsBlockwise (← w.toNat?) (← n.toNat?)))
+  | _ => none
+
+/-! ### C46: time-based windows -/
+
+def toTRow? : SExp → Option (Dask.OverlapTime.TRow (Option Int))
+  | .list [.int t, c] => do pure (t, ← toCell? c)
+  | _ => none
+def toTRows? (e : SExp) : Option (List (Dask.OverlapTime.TRow (Option Int))) := do (← e.toList?).mapM toTRow?
+def toTRowss? (e : SExp) : Option (List (List (Dask.OverlapTime.TRow (Option Int)))) := do (← e.toList?).mapM toTRows?
+def ofTRows (l : List (Dask.OverlapTime.TRow (Option Int))) : SExp := .list (l.map (fun (t, c) => .list [.int t, ofCell c]))
+
+def tGOf (how : String) (m : Nat) : Option (List (Dask.OverlapTime.TRow (Option Int)) → Dask.OverlapTime.TRow (Option Int) → Option Int) :=
+  match how with
+  | "sum" => some (Dask.OverlapTime.gTRollSum m)
+  | "count" => some (Dask.OverlapTime.gTRollCount m)
+  | _ => none
+
+/-- `(tstart W (divs…) i)` ↦ the `j` of prepend task `i` | `none`; `(tslow W (divs…))` ↦ slow path? -/
+def hTStart : Handler := handler fun args =>
+  match args with
+  | [.int w, divs, i] => do
+    match Dask.OverlapTime.startIdx w (← divs.toInts?) (← i.toNat?) with
+    | some j => pure (.int j)
+    | none => pure (.sym "none")
+  | _ => none
+
+def hTSlow : Handler := handler fun args =>
+  match args with
+  | [.int w, divs] => do pure (SExp.ofBool (Dask.OverlapTime.slowPath w (← divs.toInts?)))
+  | _ => none
+
+/-- `(ttail W (cur rows…) ((prev rows…)…))` ↦ `_tail_timedelta` -/
+def hTTail : Handler := handler fun args =>
+  match args with
+  | [.int w, cur, prevs] => do pure (ofTRows (Dask.OverlapTime.tailTime w (← toTRows? cur) (← toTRowss? prevs)))
+  | _ => none
+
+/-- `(toverlap <how> <m> W (divs…) (parts…))` ↦ `(ok (cells…)…)` | `(malformed)` -/
+def hTOverlap : Handler := handler fun args =>
+  match args with
+  | [.sym how, m, .int w, divs, parts] => do
+    let g ← tGOf how (← m.toNat?)
+    match Dask.OverlapTime.mapOverlapTime (Dask.OverlapTime.twinFn w g) w (← divs.toInts?) (← toTRowss? parts) with
+    | some out => pure (.list [.sym "ok", ofCellss out])
+    | none => pure (.list [.sym "malformed"])
+  | _ => none
+
+/-- `(tspec <how> <m> W (rows…))` ↦ the time-window function on the whole series -/
+def hTSpec : Handler := handler fun args =>
+  match args with
+  | [.sym how, m, .int w, rows] => do
+    let g ← tGOf how (← m.toNat?)
+    pure (ofCells (Dask.OverlapTime.twinFn w g (← toTRows? rows)))
   | _ => none
 
 /-! ### C36 -/
@@ -525,6 +579,7 @@ def table : List (String × Handler) := [
   ("aggss", hAggSS), ("aggvs", hAggVS),
   ("overlap", hOverlap), ("winspec", hWinSpec), ("sideok", hSideOK), ("combined", hCombined),
   ("rollblockwise", hRollBlockwise), ("fillu", hFillU), ("fillspec", hFillSpec),
+  ("tstart", hTStart), ("tslow", hTSlow), ("ttail", hTTail), ("toverlap", hTOverlap), ("tspec", hTSpec),
   ("pipe", hPipe), ("pipespec", hPipeSpec),
   ("treeshape", hTreeShape), ("reduce", hReduce), ("reducespec", hReduceSpec),
   ("reduce2", hReduce2), ("reduce2spec", hReduce2Spec), ("idxfn", hIdxFn), ("vcfn", hVcFn), ("mmfn", hMmFn),
